@@ -102,6 +102,14 @@ class Verifier:
             self.h0[key] = z3.Const('H0_' + keyname(key), s)
             if key[0] == 'alloc':
                 self.global_hyps.append(self.h0[key] >= 0)
+            if key[0] == 'g':
+                c = getattr(self.world.prog, 'const_globals', {}).get((key[1], key[2]))
+                if c is not None:
+                    try:
+                        self.global_hyps.append(self.h0[key] == self.world.const(c))
+                        self.notes.append('package variable %s.%s is never assigned after its constant initialisation: treated as that constant' % (key[1], key[2]))
+                    except Exception:
+                        pass
         return self.h0[key]
 
     def fresh_heap_const(self, key, tag):
